@@ -492,6 +492,97 @@ func (in *Interp) foreign(fn *types.Func, recv Value, x *ast.CallExpr) []Value {
 		out := in.OpaqueBytes("KUnwrap", [][]Value{blk.Args, cts}, 8*n+1, "RFC 3394 unwrap / integrity bit")
 		bad := out[8*n].(*Bits).Bits()[0]
 		return []Value{&Slice{Back: &Backing{E: cellsOf(out[:8*n])}, Hi: 8 * n, Cap: 8 * n, Elem: types.Typ[types.Uint8]}, &ErrVal{NonNil: bad}}
+	case "(*bytes.Buffer).Write", "(*bytes.Buffer).WriteByte", "(*bytes.Buffer).WriteString", "(*bytes.Buffer).Len", "(*bytes.Buffer).Bytes", "(*bytes.Buffer).Reset":
+		// a write-only buffer (nothing is read back through the io.Reader side): its content is the slice in field buf;
+		// every write allocates (the capacity of what Bytes returns is an implementation detail)
+		var bs *Struct
+		switch r := recv.(type) {
+		case *Struct:
+			bs = r
+		case *Ptr:
+			bs, _ = r.To.V.(*Struct)
+		}
+		if bs == nil || bs.F["buf"] == nil {
+			in.fail(x, "bytes.Buffer method on %T", recv)
+		}
+		if off, ok := bs.F["off"]; ok {
+			if ob, isB := off.V.(*Bits); !isB {
+				in.fail(x, "bytes.Buffer with an undetermined read offset")
+			} else if k, isK := in.D.ConstVal(ob); !isK || k != 0 {
+				in.fail(x, "bytes.Buffer that has been read from")
+			}
+		}
+		var cur []Value
+		switch c := bs.F["buf"].V.(type) {
+		case *Slice:
+			for i := 0; i < c.Len(); i++ {
+				cur = append(cur, c.At(i).V)
+			}
+		case NilVal, nil:
+		default:
+			in.fail(x, "bytes.Buffer content is %T", c)
+		}
+		u8 := types.Typ[types.Uint8]
+		mk := func(vs []Value) *Slice {
+			return &Slice{Back: &Backing{E: cellsOf(vs)}, Hi: len(vs), Cap: len(vs), Elem: u8, CapUnknown: true}
+		}
+		method := name[strings.LastIndex(name, ".")+1:]
+		switch method {
+		case "Len":
+			return []Value{in.D.Const(int64(len(cur)), 64, true)}
+		case "Bytes":
+			if len(cur) == 0 {
+				if _, isNil := bs.F["buf"].V.(NilVal); isNil || bs.F["buf"].V == nil {
+					return []Value{NilVal{}}
+				}
+			}
+			out := make([]Value, len(cur))
+			for i, v := range cur {
+				out[i] = Copy(v)
+			}
+			return []Value{mk(out)}
+		case "Reset":
+			in.store(bs.F["buf"], mk(nil))
+			return nil
+		}
+		var add []Value
+		a0 := in.expr(x.Args[0])
+		switch method {
+		case "Write":
+			switch src := a0.(type) {
+			case *Slice:
+				for j := 0; j < src.Len(); j++ {
+					add = append(add, Copy(src.At(j).V))
+				}
+			case NilVal:
+			default:
+				in.fail(x, "bytes.Buffer.Write of %T", a0)
+			}
+		case "WriteByte":
+			b, ok := a0.(*Bits)
+			if !ok {
+				in.fail(x, "bytes.Buffer.WriteByte of %T", a0)
+			}
+			add = append(add, in.D.Resize(b, 8, false))
+		case "WriteString":
+			sv, ok := a0.(*StrVal)
+			if !ok || !sv.Known {
+				in.fail(x, "bytes.Buffer.WriteString of an unknown string")
+			}
+			for j := 0; j < len(sv.S); j++ {
+				add = append(add, in.D.Const(int64(sv.S[j]), 8, false))
+			}
+		}
+		next := make([]Value, 0, len(cur)+len(add))
+		for _, v := range cur {
+			next = append(next, Copy(v))
+		}
+		next = append(next, add...)
+		in.store(bs.F["buf"], mk(next))
+		if method == "WriteByte" {
+			return []Value{&ErrVal{NonNil: False}}
+		}
+		return []Value{in.D.Const(int64(len(add)), 64, true), &ErrVal{NonNil: False}}
 	case "(*sync.Pool).Get":
 		// a pooled object has the shape of what New builds and the content its previous user left: every leaf is
 		// Stale until this user stores into it; an operation on a Stale value leaves the interpreter's subset
